@@ -8,6 +8,12 @@ From GS.Model Require Import Sha256 Nmt.
 (* C17 begin *)
 From GS.Model Require Import Mem.
 (* C17 end *)
+(* C17commit begin *)
+From GS.Model Require Import MemCommit.
+(* C17commit end *)
+(* C19json begin *)
+From GS.Model Require Import Json.
+(* C19json end *)
 Require Import Extraction.
 Require Import ExtrOcamlBasic.
 Set Extraction KeepSingleton.
@@ -21,6 +27,13 @@ Extraction "model.ml"
   (* C17 begin: explicit-memory model of the read paths *)
   mem_parse_blobs_run mem_parse_txs_run log_writes_below
   (* C17 end *)
+  (* C17commit begin: ParseBlobs, then GenerateSubtreeRoots / SparseShareSplitter.Write on the parsed blobs *)
+  mem_commit_run mem_sparse_write_run
+  (* C17commit end *)
+  (* C19json begin: JSON text layer of blobs, shares and namespaces *)
+  base64_encode base64_decode print_dec marshal_blob_json marshal_share_json marshal_namespace_json
+  unmarshal_blob_json unmarshal_share_json unmarshal_namespace_json json_in_subset
+  (* C19json end *)
   (* base *)
   b2n n2b N.add N.mul N.div N.modulo N.compare N.of_nat N.to_nat Z.add Z.mul Z.opp Z.of_N Z.to_N Z.abs Z.compare
   bytes_eqb
